@@ -333,6 +333,14 @@ def check_C17(tier, seed):
     groups = gen.parse_space(tier, rng)
     if tier == "quick":
         groups = [(l, (items if l != "exhaustive<=3/24" else items[::3])) for l, items in groups]
+    # nesting around and beyond the scanner's limits (block 255, flow 255; together up to 510 levels are accepted): the push
+    # interface recurses per level and must still tell the iterator's story, error included
+    deep = []
+    for b_, f_ in ((10, 10), (200, 100), (255, 255), (254, 1), (255, 1), (256, 0), (0, 256), (180, 90), (100, 255), (255, 100), (130, 130)):
+        deep.append("- " * b_ + "[" * f_ + "a" + "]" * f_ + "\n")
+        deep.append("".join(" " * i + "k:\n" for i in range(b_)) + " " * b_ + "{a: " * f_ + "x" + "}" * f_ + "\n")
+        deep.append("? " * b_ + "[" * f_ + "]" * f_ + "\n")
+    groups.append(("deep-mixtures", deep))
     cases, dist = dedupe(groups)
     lines = [enc(s) for s in cases]
     res.coverage["input_distribution"] = dict(groups=dist, sizes=size_hist(cases))
